@@ -115,18 +115,23 @@ func (m *modernHandler) CheckAlreadyAppliedPack(hash []byte) error {
 	return checkAlreadyAppliedPack(hash, m)
 }
 
+// tickResourcePackQueue prompts the first outstanding pack with the given id.
+// It must be called without the handler's lock held.
 func (m *modernHandler) tickResourcePackQueue(id uuid.UUID) error {
-	locked := m.TryRLock()
-	outstandingResourcePacks := m.outstandingPacks.Get(id)
-	if len(outstandingResourcePacks) != 0 {
-		pack := m.outstandingPacks.Get(id)[0]
-		if locked {
-			m.RUnlock()
-		}
-		return m.SendResourcePackRequestPacket(pack)
+	m.RLock()
+	var pack *Info
+	if outstandingResourcePacks := m.outstandingPacks.Get(id); len(outstandingResourcePacks) != 0 {
+		pack = outstandingResourcePacks[0]
 	}
-	if locked {
-		m.RUnlock()
+	m.RUnlock()
+	return m.SendResourcePackRequestPacket(pack)
+}
+
+// tickResourcePackQueueLocked is tickResourcePackQueue for callers that already
+// hold the handler's write lock (sync.RWMutex is not reentrant).
+func (m *modernHandler) tickResourcePackQueueLocked(id uuid.UUID) error {
+	if outstandingResourcePacks := m.outstandingPacks.Get(id); len(outstandingResourcePacks) != 0 {
+		return m.SendResourcePackRequestPacket(outstandingResourcePacks[0])
 	}
 	return nil
 }
@@ -195,7 +200,7 @@ func (m *modernHandler) OnResourcePackResponse(bundle *ResponseBundle) (bool, er
 
 	var err error
 	if !peek {
-		err = m.tickResourcePackQueue(id)
+		err = m.tickResourcePackQueueLocked(id)
 	}
 	handled, err2 := m.HandleResponseResult(queued, bundle)
 	return handled, errors.Join(err, err2)
